@@ -1,6 +1,6 @@
 #!/bin/sh
 # usage: tools_mut.sh <repo-relative file> <sed expr> <property> ; applies, checks, reverts
-f=/repo/$1
+f=${PYVC_REPO:-/repo}/$1
 cp "$f" /tmp/_mut_backup
 sed -i "$2" "$f"
 if cmp -s "$f" /tmp/_mut_backup; then echo "MUTATION DID NOT APPLY"; fi
